@@ -29,6 +29,7 @@ func regularSuite(maxN, maxRate, step int) hlib.Suite {
 					cur := rate
 					d, f, err := api.NewDistribution(api.RegularDistribution, interval, func(time.Time) int { calls++; return cur }, nil)
 					input := fmt.Sprintf("regular interval=%s rate=%d", interval, rate)
+					r.SampleCase(input)
 					if err != nil || d != 100*time.Millisecond {
 						r.Fail("C12/regular-interval", "wrong", fmt.Sprintf("interval %s err %v", d, err), input)
 						continue
@@ -106,6 +107,7 @@ func varyingSuite() hlib.Suite {
 							extra := []time.Duration{0, 50 * time.Millisecond, 99 * time.Millisecond}[(a+b+c)%3]
 							_, f, _ := api.NewDistribution(kind, time.Duration(n)*100*time.Millisecond+extra, func(time.Time) int { idx++; return seq[idx] }, func(k int) int { return k / 2 })
 							input := fmt.Sprintf("%s interval=%s (N=%d) rates=%v", kind, time.Duration(n)*100*time.Millisecond+extra, n, seq)
+							r.SampleCase(input)
 							for cyc := 0; cyc < 3; cyc++ {
 								r.Eval()
 								sum := 0
@@ -168,6 +170,7 @@ func randomSuite(maxN int) hlib.Suite {
 					extra := []time.Duration{0, 50 * time.Millisecond, 99 * time.Millisecond}[code%3] // N = floor(interval / 100 ms)
 					_, f, _ := api.NewDistribution(api.RandomDistribution, time.Duration(n)*100*time.Millisecond+extra, func(time.Time) int { calls++; return rate }, randFn)
 					input := fmt.Sprintf("random interval=%s (N=%d) rate=%d answer-script=%d", time.Duration(n)*100*time.Millisecond+extra, n, rate, code)
+					r.SampleCase(input)
 					for cyc := 0; cyc < 2; cyc++ {
 						sum := 0
 						for i := 0; i < n; i++ {
@@ -211,6 +214,7 @@ func longRunSuite(subTicks int) hlib.Suite {
 			calls := 0
 			_, f, _ := api.NewDistribution(c.kind, time.Duration(c.n)*100*time.Millisecond, func(time.Time) int { calls++; return c.rate }, func(k int) int { return k / 3 })
 			input := fmt.Sprintf("%s N=%d rate=%d, %d consecutive cycles", c.kind, c.n, c.rate, subTicks/c.n)
+			r.SampleCase(input)
 			for cyc := 0; cyc < subTicks/c.n; cyc++ {
 				if r.Expired() {
 					return
@@ -247,6 +251,7 @@ func passSuite() hlib.Suite {
 					calls := 0
 					d, f, err := api.NewDistribution(kind, iv, func(time.Time) int { calls++; return rate }, nil)
 					input := fmt.Sprintf("%s interval=%s rate=%d", kind, iv, rate)
+					r.SampleCase(input)
 					if err != nil || d != iv {
 						r.Fail("C12/pass-through", "interval", fmt.Sprintf("interval %s err %v", d, err), input)
 						continue
